@@ -41,8 +41,32 @@ def run(prop, spec, run_):
             want = {"dsk.fill", "dsk.write", "dsk.geom"}
             counts = {"dsk.fill": 5 if q else 40, "dsk.write": 12 if q else 100}
         fam_dsk.run_streams(run_, want, counts, thorough=not q, corpus=corpus("dsk_histories"))
+    elif prop in ASM_PROPS:
+        import props_asm
+        getattr(props_asm, ASM_PROPS[prop])(run_, tier != "quick")
+    elif prop == "C10":
+        import fam_cli
+        q = tier == "quick"
+        fam_cli.run_asm_matrix(run_, quick=q, sub_every=9 if q else 4)
+        fam_cli.run_util(run_, 30 if q else 400)
+        fam_cli.run_sniff(run_, 30 if q else 300)
+    elif prop == "C09":
+        import fam_cli
+        q = tier == "quick"
+        fam_cli.run_sniff(run_, 60 if q else 600)
+        fam_cli.run_hist(run_, 10 if q else 120, thorough=not q)
+    elif prop == "C11":
+        import fam_cli
+        fam_cli.run_asm_matrix(run_, quick=(tier == "quick"), sub_every=6 if tier == "quick" else 3)
+    elif prop == "C16":
+        import fam_cli
+        fam_cli.run_util(run_, 80 if tier == "quick" else 1200)
     else:
         raise KeyError(prop)
+
+
+ASM_PROPS = {"C01": "run_c01", "C12": "run_c12", "C02": "run_c02", "C03": "run_c03", "C04": "run_c04", "C05": "run_c05",
+             "C13": "run_c13", "C17": "run_c17", "C18": "run_c18", "C19": "run_c19"}
 
 
 def replay(prop, spec, run_, doc):
